@@ -1,4 +1,5 @@
 import AslModel.Model.Dis.I4004
+import AslModel.Lemmas.DisRetrieve
 /-! Table facts tying deco4004.c's `OpcodeList` to code4004.c's `InitFields` list, decided over all 256 opcodes. -/
 namespace AslModel.Dis.I4004
 open AslModel.Generated
@@ -39,27 +40,11 @@ end AslModel.Dis.I4004
 
 namespace AslModel.Dis
 
-theorem overlapPart_one (a : Nat) : ∀ (img : Image) (p : List UInt8), overlapPart a 1 img = some p → inImage img a := by
-  intro img
-  induction img with
-  | nil => intro p h; simp [overlapPart] at h
-  | cons c cs ih =>
-    intro p h
-    unfold overlapPart at h
-    simp only at h
-    split at h
-    · rename_i hc
-      exact ⟨c, List.mem_cons_self, by omega, by omega⟩
-    · obtain ⟨d, hd, h1⟩ := ih p h
-      exact ⟨d, List.mem_cons_of_mem _ hd, h1⟩
-
 theorem fetch_inImage (img : Image) (lower : Bool) (a b : Nat) (e : List String) (h : I4004.fetch img lower a = (some b, e)) : inImage img a := by
   unfold I4004.fetch at h
   split at h
   · rename_i bb hr
-    cases hov : overlapPart a 1 img with
-    | none => simp [retrieve, retrieveF, hov] at hr
-    | some p => exact overlapPart_one a img p hov
+    exact retrieve_one_inImage img a _ hr
   · simp at h
 
 end AslModel.Dis
